@@ -175,6 +175,35 @@ def prop_interleaved(spec, rec):
     rec.case(spec, labels, len(pa) > 1 and len(ids_a) > 1)
 
 
+def prop_many_pages(spec, rec):
+    """A result set of a thousand pages and more (a time-series query returns one session per
+    page): every session once, in order, one request per page, to the very last page."""
+    n = spec["n_pages"]
+    page_specs = []
+    for k in range(n):
+        size = spec["sizes"][k % len(spec["sizes"])]
+        page_specs.append([{"id": "doc-%d-%d" % (k, j), "zone": "UTC", "t": 1_500_000_000 + 60 * k, "stay": 3600, "done": None, "kwh": 1.0, "note": "", "series": None} for j in range(size)])
+    pages, flat = build_pages("caltech", page_specs)
+    tr = SiteTransport({"caltech": pages})
+    client = DataClient("tok", url=BASE)
+    with mock.patch.object(data_client.requests, "get", tr.get):
+        got = []
+        try:
+            for doc in client.get_sessions("caltech", timeseries=spec["timeseries"]):
+                got.append(doc["_id"])
+        except RecursionError as e:
+            require(False, "sessions_not_each_once_in_order", "after %d of %d sessions (%d requests) the generator died with %r" % (len(got), len(flat), len(tr.requests), e))
+    want = [d["id"] for d in flat]
+    require(got == want, "sessions_not_each_once_in_order", lambda: "%d sessions yielded, the %d pages hold %d (first difference at %r)" % (len(got), n, len(want), next((i for i, (a, b) in enumerate(zip(got, want)) if a != b), min(len(got), len(want)))))
+    require(len(tr.requests) == n, "request_count", lambda: "%d requests for %d pages" % (len(tr.requests), n))
+    rec.case(spec, {"thousand_pages_or_more"} if n >= 1000 else {"hundreds_of_pages"}, n >= 1000)
+
+
+@st.composite
+def many_pages_cases(draw):
+    return {"n_pages": draw(st.sampled_from([300, 1000, 1200, 2500])), "sizes": draw(st.lists(st.sampled_from([1, 1, 1, 0, 2]), min_size=1, max_size=4)), "timeseries": draw(st.booleans())}
+
+
 @st.composite
 def interleaved_cases(draw):
     def pages(prefix):
@@ -407,9 +436,10 @@ def subchecks(tier):
     return [
         Given("paging_and_conversion", cases(), prop, quick=1200, thorough=80000, floors={"empty_page_before_nonempty": 0.101, "near_dst": 0.15, "timeseries_document": 0.2, "by_time": 0.08, "timeseries_query": 0.085, "series_interior_in_other_offset": 0.015}),
         Given("interleaved_generators", interleaved_cases(), prop_interleaved, quick=300, thorough=30000, floors={"both_multi_page": 0.168}, jobs_quick=2),
+        Given("many_pages", many_pages_cases(), prop_many_pages, quick=6, thorough=200, floors={"thousand_pages_or_more": 0.15}, jobs_quick=2),
         Given("time_round_trip", ROUNDTRIP, prop_roundtrip, quick=1500, thorough=200000, floors={"near_dst": 0.3}, jobs_quick=2),
     ]
 
 
 def replay(subcheck, spec, rec):
-    return {"time_round_trip": prop_roundtrip, "interleaved_generators": prop_interleaved}.get(subcheck, prop)(spec, rec)
+    return {"time_round_trip": prop_roundtrip, "interleaved_generators": prop_interleaved, "many_pages": prop_many_pages}.get(subcheck, prop)(spec, rec)
